@@ -25,7 +25,7 @@ theorem set_store_lo {W : Nat} (hW : 0 < W) (ws : Array Nat) (hok : WordsOK W ws
     bitAt W (ws.setIfInBounds (p / W) ((ws.getD (p / W) 0 &&& lowMask (p % W)) ||| shlW W v (p % W))) k
       = if (p ≤ k ∧ k < p + n) ∧ k / W = p / W then v.testBit (k - p) else bitAt W ws k := by
   unfold bitAt
-  rw [getD_setIfInBounds]
+  rw [getD_setIfInBounds']
   have hd := div_mod_decomp hW p
   have hk' := div_mod_decomp hW k
   by_cases hk : p / W = k / W
@@ -46,7 +46,7 @@ theorem set_store_hi {W : Nat} (hW : 0 < W) (ws : Array Nat) (hok : WordsOK W ws
         ((ws.getD (p / W + 1) 0 &&& notW W (lowMask n >>> (W - p % W))) ||| (v >>> (W - p % W)))) k
       = if (p ≤ k ∧ k < p + n) ∧ ¬ k / W = p / W then v.testBit (k - p) else bitAt W ws k := by
   unfold bitAt
-  rw [getD_setIfInBounds]
+  rw [getD_setIfInBounds']
   have hd := div_mod_decomp hW p
   have hk' := div_mod_decomp hW k
   by_cases hk1 : p / W + 1 = k / W
@@ -105,7 +105,7 @@ theorem set_store_bit {W : Nat} (hW : 0 < W) (ws : Array Nat) (hok : WordsOK W w
     bitAt W (ws.setIfInBounds (q / W) (bitFn W (q % W) b (ws.getD (q / W) 0))) k
       = if k = q then b else bitAt W ws k := by
   unfold bitAt
-  rw [getD_setIfInBounds]
+  rw [getD_setIfInBounds']
   have hq := div_mod_decomp hW q
   have hk' := div_mod_decomp hW k
   by_cases hk : q / W = k / W
